@@ -32,7 +32,7 @@ TRUSTED = ["call binding (pyvc.sym.bind_args)", "contextlib.contextmanager singl
 ASSUMPTIONS = ["client_class is Client (no subclass overrides)"]
 NOT_COVERED = ["that each stored option takes effect is what C01..C06, C20 prove per option (Client.__init__ storing them is a unit of this check)", "RetryingClient: __getattr__ forwarding is proved in C17 (re-run here as dep:C17)",
                "non-key-addressed methods (stats, flush_all, quit, close, version, raw_command differ by design)"]
-BUDGET = {"quick": 30, "thorough": 120}
+BUDGET = {"quick": 40, "thorough": 120}
 FILTER_BY_PROPERTY = True
 DEPENDS = ["C17", "C09", "C13"]
 
